@@ -257,19 +257,67 @@ def build_harness(f32=False):
     return os.path.join(env["CARGO_TARGET_DIR"], "debug", "corgi_harness"), hook
 
 
-def run_harness(binary, cases, workdir):
-    os.makedirs(workdir, exist_ok=True)
-    p = os.path.join(workdir, "cases.txt")
+def _run_harness_once(binary, cases, workdir, tag, limit):
+    p = os.path.join(workdir, "cases_%s.txt" % tag)
     open(p, "w").write(dsl.cases_to_text(cases))
-    r = subprocess.run(["timeout", "1800", binary, p], stdout=subprocess.PIPE,
-                       stderr=subprocess.PIPE, text=True)
-    if r.returncode != 0:
-        raise RuntimeError("harness failed (%d):\n%s" % (r.returncode, r.stderr[-2000:]))
-    res = dsl.parse_harness(r.stdout)
-    if len(res) != len(cases):
-        raise RuntimeError("harness produced %d results for %d cases" % (len(res), len(cases)))
+    try:
+        r = subprocess.run([binary, p], stdout=subprocess.PIPE, stderr=subprocess.PIPE, text=True,
+                           timeout=limit)
+        out, timed_out = r.stdout, False
+        if r.returncode != 0:
+            raise RuntimeError("harness failed (%d):\n%s" % (r.returncode, r.stderr[-2000:]))
+    except subprocess.TimeoutExpired as e:
+        out = e.stdout or ""
+        if isinstance(out, bytes):
+            out = out.decode("utf-8", "replace")
+        timed_out = True
     os.remove(p)
-    return res
+    return out, timed_out
+
+
+def _run_harness_chunk(args):
+    binary, cases, workdir, tag, limit = args
+    results = []
+    rest = list(cases)
+    rounds = 0
+    while rest:
+        out, timed_out = _run_harness_once(binary, rest, workdir, "%s_%d" % (tag, rounds), limit)
+        rounds += 1
+        done = out.count("\nend\n") + (1 if out.startswith("end\n") else 0)
+        complete = out[:out.rfind("end\n") + 4] if "end\n" in out else ""
+        res = dsl.parse_harness(complete)
+        res = res[:done]
+        results += res
+        if not timed_out:
+            if len(res) != len(rest):
+                raise RuntimeError("harness produced %d results for %d cases" % (len(res), len(rest)))
+            break
+        # the case after the last completed one did not finish within the limit
+        results.append(["timeout"])
+        rest = rest[len(res) + 1:]
+    return results
+
+
+def run_harness(binary, cases, workdir, limit=None):
+    """Runs the cases through corgi, in 16 parallel chunks; a case that does not finish within the
+    time limit of its chunk is reported as the observation 'timeout' and the chunk continues after it."""
+    os.makedirs(workdir, exist_ok=True)
+    if limit is None:
+        limit = int(os.environ.get("VERIF_HARNESS_LIMIT", "90"))
+    n = len(cases)
+    if n == 0:
+        return []
+    k = max(1, min(16, n // 50 + 1))
+    size = (n + k - 1) // k
+    chunks = [cases[i:i + size] for i in range(0, n, size)]
+    out = []
+    with concurrent.futures.ThreadPoolExecutor(max_workers=16) as ex:
+        for res in ex.map(_run_harness_chunk,
+                          [(binary, ch, workdir, "h%02d" % j, limit) for j, ch in enumerate(chunks)]):
+            out += res
+    if len(out) != n:
+        raise RuntimeError("harness produced %d results for %d cases" % (len(out), n))
+    return out
 
 
 # --------------------------------------------------------------------------------------
@@ -295,7 +343,7 @@ def dual_check(cases, rust, workdir, rtol_default):
     for i in idx:
         c = cases[i]
         r = rust[i]
-        if any(o == "panic" for o in r):
+        if any(o in ("panic", "timeout") for o in r):
             continue
         d = {"name": c["name"], "tangents": c["tangents"],
              "instrs": list(c["instrs"][:c["backward_at"]]) + [("obs", c["root"])]}
@@ -408,7 +456,11 @@ def main():
             nontrivial.add(hashlib.sha1(json.dumps(c["instrs"], sort_keys=True, default=str)
                                         .encode()).hexdigest())
         d = dsl.first_difference(r, m, c.get("rtol", rtol), c.get("adjudicate"), c.get("lenient"))
-        if d is not None:
+        if r == ["timeout"]:
+            failures.append({"case": i, "confirmed": True,
+                             "reason": "corgi did not finish this program within the time limit of its chunk "
+                                       "(the model evaluates it in milliseconds)"})
+        elif d is not None:
             failures.append({"case": i, "confirmed": True, "first_differing_instruction": d,
                              "reason": "corgi and the model (the proven specification) differ at "
                                        "instruction %d: %s" % (d, dsl.instr_to_text(c["instrs"][d])
